@@ -63,3 +63,26 @@ Definition spec_ok (fs : fsys) (cwd start name : string) (obs : observed) : bool
   | None, ONotFound => true
   | _, _ => false
   end.
+
+(** ** Guards of the partial theorems *)
+Definition comp_okb (c : string) : bool :=
+  negb (String.eqb c "") && negb (contains_char "/"%char c).
+Definition comps_okb (comps : list string) : bool := forallb comp_okb comps.
+
+Definition all_listable (fs : fsys) (comps : list string) : bool :=
+  forallb (fun d => match listdir fs (dir_str d) with Some _ => true | None => false end)
+          (ancestors comps).
+
+(** outside F-C20: the root directory offers no candidate *)
+Definition root_clear (fs : fsys) (name : string) : bool :=
+  match candidate fs name "/" with None => true | Some _ => false end.
+
+Definition is_nil {A} (l : list A) : bool := match l with [] => true | _ => false end.
+
+(** the proved region: absolute normalised start below the root, collection
+    name a plain component, the abstract file system honours
+    [os.listdir("")] = FileNotFoundError and lists every ancestor *)
+Definition guard_abs (fs : fsys) (comps : list string) (name : string) : bool :=
+  negb (is_nil comps) && comps_okb comps && comp_okb name &&
+  match listdir fs "" with None => true | Some _ => false end &&
+  all_listable fs comps.
